@@ -332,5 +332,12 @@ Fixpoint run_session (cs : list call) : list (res T) :=
       end
   end.
 
+(** The life of a process: the calls made while the namespace-scope objects of the translation units linked in front of the library
+    are initialised (before main, and before the namespace-scope objects of Integration.cpp would be initialised), then the calls made
+    from main.  Sections 1.1-1.3 and 2.1 of Integration.cpp declare no namespace-scope object, initialised statically or dynamically
+    (the method names are string literals compared in place, the defaults of method_parameter are the literals 5 and 30 in the branches):
+    a call made before main is answered like any other. *)
+Definition run_process (before_main in_main : list call) : list (res T) := run_session (before_main ++ in_main).
+
 End Named.
 End Model.
